@@ -8,8 +8,8 @@ Loss moments: lam.gamma(h) = sum_g lam_g mean_g(loss) = (1/n) sum_i (lam_{g(i)}/
 """
 from __future__ import annotations
 
-from ..terms import NONE, T, const, const_value, contains, glob, mk, subterms
-from .common import M_BGL, M_ER, M_GS, M_LAG, M_UP, Analysis, arg, calls_to, is_str_const, kw, stores_attr
+from ..terms import NONE, T, const, const_value, contains, glob, mk, show, subterms
+from .common import M_BGL, M_ER, M_GS, M_LAG, M_UP, Analysis, arg, calls_to, is_str_const, kw, label_strips, stores_attr
 
 SPEC_FUNCS = {"relu": glob("spec.relu"), "np": glob("numpy"), "pd": glob("pandas")}
 
@@ -20,6 +20,7 @@ def check(ctx):
     ctx.guard(r073_lagrangian, ctx)
     ctx.guard(r073_gridsearch, ctx)
     ctx.guard(r074, ctx)
+    ctx.guard(r075, ctx)
 
 
 def r071(ctx):
@@ -224,3 +225,33 @@ def r074(ctx):
     rr = A.run(f"{M_BGL}:ConditionalLossMoment.project_lambda", cls_ctx=f"{M_BGL}:ConditionalLossMoment")
     ctx.ob("R07.4", rr.func, None, rr.ret is rr.params["lambda_vec"], "ConditionalLossMoment.project_lambda is the identity",
            construct="identity projection")
+
+
+def r075(ctx):
+    ctx.rule("R07.5", "the multiplier vector is consumed by label: signed_weights / project_lambda never take lambda_vec out of "
+                      "its (sign, event, group) / group labels (np.asarray, .values, .iloc, list ...) unless the values are put "
+                      "straight back under lambda_vec.index; a positional use pairs multipliers with the wrong constraint "
+                      "whenever the caller's vector is not in the moment's own order")
+    A = Analysis(ctx)
+    n = 0
+    for cls in (M_UP + ":UtilityParity", M_ER + ":ErrorRate", M_BGL + ":ConditionalLossMoment"):
+        for m in ("signed_weights", "project_lambda"):
+            fi = ctx.prog.lookup_method(cls, m)
+            if fi is None:
+                continue
+            r = A.run(fi.fq, cls_ctx=cls)
+            lv = r.params.get("lambda_vec")
+            if lv is None or r.ret is None:
+                ctx.ob("R07.5", fi.fq, None, None, f"{m} has no lambda_vec parameter / no return value", construct=f"{cls.split(':')[1]}.{m} labels")
+                continue
+            n += 1
+            terms = [r.ret] + [e.data["value"] for e in r.events if e.kind == "store"] + \
+                    [a for e in r.events if e.kind == "call" for a in e.data.get("args", ()) if isinstance(a, T)]
+            hits = []
+            for t in terms:
+                hits += label_strips(t, lv)
+            ok = not hits
+            ctx.ob("R07.5", fi.fq, None, ok, f"{cls.split(':')[1]}.{m} uses lambda_vec through its labels only" if ok else
+                   f"{cls.split(':')[1]}.{m} strips the labels of lambda_vec ({show(hits[0], maxdepth=3)[:80]}) and uses the values by position",
+                   construct=f"{cls.split(':')[1]}.{m} consumes lambda by label")
+    ctx.floor("R07.5", "signed_weights / project_lambda methods", n, 6)
